@@ -48,7 +48,17 @@ class Writer:
             b = items[i]
             w = utf8_width(ex, b)
             if w > 1:
-                out += items[i:i + w]; i += w; continue
+                # raw UTF-8, or - for a char of the basic plane, once per text - the equivalent \uXXXX spelling
+                if w < 4 and not getattr(s, '_u_spelled', False) and s.ch(2) == 1:
+                    s._u_spelled = True
+                    from mirsym.models_coll import decode_utf8_char
+                    c = decode_utf8_char(ex, items[i:i + w])
+                    up = s.ch(2) == 1
+                    nib = lambda k: (z3.Extract(7, 0, z3.LShR(c, k) & 15) if is_sym(c) else (c >> k) & 15)
+                    out += [92, 117] + [hex_nibble(nib(12), up), hex_nibble(nib(8), up), hex_nibble(nib(4), up), hex_nibble(nib(0), up)]
+                else:
+                    out += items[i:i + w]
+                i += w; continue
             specials = [(34, [92, 34]), (92, [92, 92]), (36, [92, 36]), (10, [92, 110]), (13, [92, 114]), (9, [92, 116]), (8, [92, 98]), (12, [92, 102])]
             done = False
             for code, esc in specials:
